@@ -42,6 +42,7 @@ type (
 		T    string
 	}
 	EQuant struct {
+		Lambda bool
 		Forall bool
 		Vars   []QVar
 		Body   Expr
@@ -91,6 +92,13 @@ type FuncContract struct {
 	Opts     map[string]string
 	Uses     []string
 	Line     int
+	Ghost    []GhostAssign
+}
+
+type GhostAssign struct {
+	Target *ModTarget
+	Value  Expr
+	Src    string
 }
 
 type SpecParam struct{ Name, T string }
@@ -229,7 +237,7 @@ func parseExpr(src string) (e Expr, err error) {
 
 func (p *parser) expr() Expr {
 	t := p.peek()
-	if t.kind == "id" && (t.s == "forall" || t.s == "exists") {
+	if t.kind == "id" && (t.s == "forall" || t.s == "exists" || t.s == "lambda") {
 		p.next()
 		var vars []QVar
 		for {
@@ -247,7 +255,7 @@ func (p *parser) expr() Expr {
 		}
 		p.expectOp("::")
 		body := p.expr()
-		return &EQuant{Forall: t.s == "forall", Vars: vars, Body: body}
+		return &EQuant{Forall: t.s == "forall", Lambda: t.s == "lambda", Vars: vars, Body: body}
 	}
 	return p.iff()
 }
@@ -523,8 +531,24 @@ func readContractFile(path, pkg string) (*ContractFile, error) {
 		fail := func(e error) error { return fmt.Errorf("%s:%d: %v", path, s.line, e) }
 		switch kw {
 		case "ghost":
-			// ghost (T) name type
+			// ghost (T) name type     |  inside a func block: ghost s.f := expr
 			r := strings.TrimSpace(rest)
+			if k := strings.Index(r, ":="); k > 0 && !strings.HasPrefix(r, "(") {
+				if cur == nil {
+					return nil, fail(fmt.Errorf("ghost assignment outside func"))
+				}
+				mt, err := parseModTarget(strings.TrimSpace(r[:k]))
+				if err != nil {
+					return nil, fail(err)
+				}
+				e, err := parseExpr(r[k+2:])
+				if err != nil {
+					return nil, fail(err)
+				}
+				cur.Ghost = append(cur.Ghost, GhostAssign{Target: mt, Value: e, Src: r})
+				cur.Modifies = append(cur.Modifies, mt)
+				break
+			}
 			if !strings.HasPrefix(r, "(") {
 				return nil, fail(fmt.Errorf("ghost (Type) name type"))
 			}
